@@ -357,4 +357,65 @@ ValidCompressedStageH(bc, bu) ==
   IF ~wu.ok THEN "uncompressed-unreadable:" \o wu.why
   ELSE IF ~wc.ok THEN "compressed-unreadable:" \o wc.why
   ELSE JudgeStreamsH(bc, bu, WithHints(wc.parts), WithHints(wu.parts), 12)
+
+-----------------------------------------------------------------------------
+(* Foreign encoders.  PackAny leaves open WHICH allowed choice an encoder      *)
+(* takes; the library's packer (PackImpl) points at first occurrences and so   *)
+(* never emits most of the forms the property obliges its reader to accept     *)
+(* ("compressed names are still accepted on input for every type").            *)
+(* Recompress(bu, fs) re-encodes the uncompressed octets bu of a message name  *)
+(* by name with Emit1 under another strategy fs:                               *)
+(*   pick   "latest" | "first": among the earlier starts at which the wanted   *)
+(*          suffix is read, the last / first one -- the last one is, for a     *)
+(*          repeated name, the previous POINTER (an RRset whose owners each    *)
+(*          point at the previous owner field: a pointer that lands on a       *)
+(*          pointer before any label was read; RFC 1035 s.4.1.4 allows it,     *)
+(*          AMBIG above)                                                       *)
+(*   rd     names in the RDATA of every type are compressed too (RFC 3597 s.4: *)
+(*          never sent, accepted on input)                                     *)
+(*   whole  only whole names are replaced (no labels in front of a pointer)    *)
+(*   root   a pointer may also replace a root octet                            *)
+(* RDLENGTH fields are recomputed.  Gen_Compress checks every form it emits    *)
+(* with the judge above (ValidCompressedStageH).                               *)
+FStrategy(pick, rd, whole, root) == [pick |-> pick, rd |-> rd, whole |-> whole, root |-> root]
+
+SetMax(S) == CHOOSE x \in S : \A y \in S : y <= x
+SetMin(S) == CHOOSE x \in S : \A y \in S : x <= y
+
+ForeignChoice(out, starts, n, c, fs) ==
+  IF ~(c \/ fs.rd) THEN << Len(n) + 1, -1 >>
+  ELSE LET S    == { t \in starts : t < MaxOff /\ t < Len(out) }
+           decs == [t \in S |-> DecName(out, t)]
+           tg(i) == { t \in S : decs[t].ok /\ decs[t].name = Suffix(n, i) }
+           is   == { i \in 1..(Len(n) + 1) : /\ (fs.whole => i = 1)
+                                              /\ (i = Len(n) + 1 => fs.root)
+                                              /\ tg(i) # {} }
+       IN IF is = {} THEN << Len(n) + 1, -1 >>
+          ELSE LET i == SetMin(is) IN << i, IF fs.pick = "latest" THEN SetMax(tg(i)) ELSE SetMin(tg(i)) >>
+
+\* st = [out, starts, slot, left]: slot = offset of the RDLENGTH field still to be filled in (-1: none), left = RDATA parts to go
+RECURSIVE Recomp(_, _, _, _, _)
+Recomp(s, x, bu, st, fs) ==
+  IF x > Len(s) THEN st.out
+  ELSE LET p == s[x]
+           e == IF p.k = "n"
+                THEN LET ch == ForeignChoice(st.out, st.starts, p.name, p.c, fs)
+                     IN Emit1([out |-> st.out, starts |-> st.starts], p.name, ch[1], ch[2])
+                ELSE [out |-> st.out \o (IF p.k = "o" THEN Sub(bu, p.a + 1, p.z) ELSE <<0, 0>>), starts |-> st.starts]
+           opened  == p.k = "l" /\ p.n > 0
+           slot    == IF opened THEN Len(st.out) ELSE st.slot
+           left    == IF opened THEN p.n ELSE IF st.slot >= 0 THEN st.left - 1 ELSE 0
+           closing == ~opened /\ st.slot >= 0 /\ left = 0
+           out2    == IF closing THEN LET v == Len(e.out) - (slot + 2) IN
+                                      [e.out EXCEPT ![slot + 1] = v \div 256, ![slot + 2] = v % 256]
+                      ELSE e.out
+       IN Recomp(s, x + 1, bu, [out |-> out2, starts |-> e.starts, slot |-> IF closing THEN -1 ELSE slot, left |-> left], fs)
+
+Recompress(bu, fs) ==
+  LET w == StreamOf(bu) IN
+  IF ~w.ok THEN <<>> ELSE Recomp(w.parts, 1, bu, [out |-> Sub(bu, 1, 12), starts |-> {}, slot |-> -1, left |-> 0], fs)
+
+\* does some name of a stream consist of a pointer that lands directly on another pointer (no label read yet)?
+PtrOnPtr(s) == \E x \in 1..Len(s) : s[x].k = "n" /\ s[x].ptr # -1 /\ Len(s[x].lits) = 0 /\ s[x].tk \in 1..(x - 1) /\
+                  LET q == s[s[x].tk] IN s[x].tj = Len(q.lits) + 1 /\ q.ptr # -1
 =============================================================================
